@@ -352,6 +352,24 @@ def rules(rep, m):
         allv = " ".join(v for _, v in sizes)
         r5.instance("%s sizes: %s" % (fn, sizes))
         rep.sample({"rule": "R-C02-5", "function": fn, "sizes": sizes})
+        if fn == "cmi_hashheap_clear":
+            # clearing must wipe the whole hash map (stale entries would resurrect removed keys): either one wipe
+            # from the heap start over heap part + hash part, or a wipe of the hash map with the hash part's size
+            wipes = [(cx.canon(kids(x)[1]), cx.canon(kids(x)[-1])) for x in walk(f.body)
+                     if x["kind"] == "CallExpr" and callee_ref(x) == "cmi_memset"]
+            okc = False
+            for dst, sz in wipes:
+                if dst == hpn + "->heap" and re.search(heap_part, sz) and re.search(hash_part, sz):
+                    okc = True
+                if dst == hpn + "->hash_map" and re.fullmatch(hash_part, sz):
+                    okc = True
+            if not okc:
+                rep.finding(r5, fn, "clear:hash-map", "clear does not wipe the whole hash map (wipes: %s): keys removed by "
+                            "the clear would still be found" % wipes, where=m.rel(f.where))
+                r5.fail()
+            else:
+                r5.ok()
+            continue
         if not re.search(heap_part, allv):
             rep.finding(r5, fn, "layout:heap-part", "%s does not size the heap part as (heap_size + 2) tags" % fn,
                         where=m.rel(f.where))
